@@ -105,6 +105,7 @@ impl Family for C16Family {
             real: &["passkey_transports::hid::{Message::new, Message::send, ChannelHandler::handle_packet}"],
             stubs: &["per-channel io::Write endpoints", "the bus merger (schedule)", "independent packet decoder"],
             crash_isolated: false,
+            fresh_thread: false,
         }
     }
 
@@ -200,7 +201,7 @@ impl Family for C16Family {
                 out.push(Violation { property: "C16".into(), clause, detail, scenario: scn.clone(), log_hash: 0 });
             }
         };
-        for p in ["payload_exactly_fills_init_packet", "continuation_exactly_fills_packet", "max_accepted_length", "oversize_refused", "length_7609_refused_by_sender", "stray_continuation_ignored", "two_multi_packet_messages_interleaved", "128_continuation_packets", "exhaustive_interleaving_run"] {
+        for p in ["received_message_sent_again", "payload_exactly_fills_init_packet", "continuation_exactly_fills_packet", "max_accepted_length", "oversize_refused", "length_7609_refused_by_sender", "stray_continuation_ignored", "two_multi_packet_messages_interleaved", "128_continuation_packets", "exhaustive_interleaving_run"] {
             stats.declare_probe(p);
         }
         stats.runs += 1;
@@ -381,7 +382,25 @@ impl Family for C16Family {
                             if m.channel != h.channels[ch].cid || (m.command.encode() & 0x7f) != *cmd || m.payload != *payload {
                                 fail("message-altered", format!("channel {:#010x} message {mi}: sent cmd {:#04x} with {} bytes, received channel {:#010x} cmd {:#04x} with {} bytes{}", h.channels[ch].cid, cmd, payload.len(), m.channel, m.command.encode() & 0x7f, m.payload.len(), if m.payload.len() == payload.len() { " (contents differ)" } else { "" }));
                             }
-                            received[ch].push((m.command.encode() & 0x7f, m.payload));
+                            // a received message is a Message like any other: sending it on (a PING
+                            // echo, a relay) must produce the packets it arrived in
+                            if sent[ch][mi].1.len() % 3 == 0 {
+                                stats.probe("received_message_sent_again");
+                                let original: Vec<&Vec<u8>> = queues[ch].iter().filter(|p| p.of_msg.map(|x| x.0) == Some(mi)).map(|p| &p.bytes).collect();
+                                let (cmd2, payload2) = (m.command.encode() & 0x7f, m.payload.clone());
+                                let mut ep = Endpoint::default();
+                                match m.send(&mut ep) {
+                                    Ok(()) => {
+                                        if ep.writes.iter().collect::<Vec<_>>() != original {
+                                            fail("resend-differs", format!("channel {:#010x}: a received {}-byte message sent again is written as {} packets that differ from the {} it arrived in (first difference at packet {:?})", h.channels[ch].cid, payload2.len(), ep.writes.len(), original.len(), ep.writes.iter().zip(original.iter()).position(|(a, b)| &a != b)));
+                                        }
+                                    }
+                                    Err(e) => fail("send-error", format!("re-sending a received message failed: {e}")),
+                                }
+                                received[ch].push((cmd2, payload2));
+                            } else {
+                                received[ch].push((m.command.encode() & 0x7f, m.payload));
+                            }
                         }
                     }
                 }
